@@ -23,7 +23,8 @@ def register(w):
 
   # property C08, mechanism "Scope objects merged upward on finalize; isolated scopes export only read - bound":
   # a block scope (not isolated) reports everything it reads / modifies / binds / declares to its parent, except
-  # its isolated names; a function-like scope (isolated) exports only its free reads (read - bound) and the
+  # its isolated names; a function-like scope (isolated) exports only its free reads (read - locally bound names;
+  # names it declares nonlocal are free, cf. C08 "free variables are exactly those CPython's compiler assigns") and the
   # annotations it does not bind; nothing else of the parent and nothing of the scope itself changes.
   def exp(f, minus):
     return ('implies(self.parent is not None and not self.isolated, seteq(self.parent.%s, old(self.parent.%s) | '
@@ -39,8 +40,9 @@ def register(w):
                exp('read', ' - old(self.isolated_names)'), exp('modified', ' - old(self.isolated_names)'),
                exp('bound', ' - old(self.isolated_names)'), exp('globals', ''), exp('nonlocals', ''),
                exp('annotations', ''),
+               # (names the function declares nonlocal are free in it: their reads are exported too)
                'implies(self.parent is not None and self.isolated, '
-               'seteq(self.parent.read, old(self.parent.read) | (old(self.read) - old(self.bound))))',
+               'seteq(self.parent.read, old(self.parent.read) | (old(self.read) - (old(self.bound) - old(self.nonlocals)))))',
                'implies(self.parent is not None and self.isolated, '
                'seteq(self.parent.annotations, old(self.parent.annotations) | (old(self.annotations) - old(self.bound))))',
                'implies(self.parent is not None and self.isolated, unchanged(self.parent.modified) and '
@@ -153,6 +155,6 @@ def register(w):
                'implies(not result.isolated, seteq(self.scope.read, old(self.scope.parent.read) | '
                '(old(self.scope.read) - old(self.scope.isolated_names))))',
                'implies(result.isolated, seteq(self.scope.read, old(self.scope.parent.read) | '
-               '(old(self.scope.read) - old(self.scope.bound))))',
+               '(old(self.scope.read) - (old(self.scope.bound) - old(self.scope.nonlocals)))))',
                'implies(result.isolated, seteq(self.scope.modified, old(self.scope.parent.modified)) '
                'and seteq(self.scope.bound, old(self.scope.parent.bound)))']))
